@@ -3323,6 +3323,11 @@ impl PeerConnection {
         label: &str,
         config: Option<crate::transports::sctp::DataChannelConfig>,
     ) -> RtcResult<Arc<crate::transports::sctp::DataChannel>> {
+        // Nothing will ever open or close a channel made on a closed connection:
+        // its recv() would wait forever.
+        if *self.inner.peer_state.borrow() == PeerConnectionState::Closed {
+            return Err(RtcError::InvalidState("peer connection is closed".into()));
+        }
         // Ensure we have an application transceiver for negotiation
         let has_app_transceiver = {
             let transceivers = self.inner.transceivers.lock();
